@@ -362,7 +362,7 @@ func run(c *mon.Ctx) {
 	})
 
 	// ---- equality: identical copies, same pointer, nil, every single-bit difference
-	c.Exhaustive("Equal: each of the 1504 single-bit differences", 1504)
+	c.Exhaustive("Equal: each of the 1504 single-bit differences and each of the 17578 byte-offset pairs with a common XOR pattern", 1504+17578)
 	c.Stream("equal", c.N(8, 64), func(i int, r *gen.Rand) {
 		a := body(i%5, r)
 		b := a
@@ -380,6 +380,36 @@ func run(c *mon.Ctx) {
 				c.Fail("equal:bitflip", fmt.Sprintf("packets that differ in bit %d (byte %d) compare equal", bit, bit>>3), wit{Op: "Equal", Before: mon.Hex(a[:]), After: mon.Hex(b[:])})
 			}
 		}
+		// two-byte differences with the same XOR pattern (differences must not cancel), every offset pair
+		pat := byte(1) << uint(i%8)
+		if i%3 == 0 {
+			pat = r.Byte() | 1
+		}
+		for x := 0; x < 188; x++ {
+			for y := x + 1; y < 188; y++ {
+				b = a
+				b[x] ^= pat
+				b[y] ^= pat
+				if packet.Equal(&a, &b) || b.Equals(&a) {
+					c.Fail("equal:two-byte-difference", fmt.Sprintf("packets that differ in bytes %d and %d (same XOR pattern %#02x) compare equal", x, y, pat), wit{Op: "Equal", Before: mon.Hex(a[:]), After: mon.Hex(b[:])})
+					x, y = 188, 188
+				}
+			}
+		}
+		c.Eval(188 * 187 / 2)
+		// random multi-byte differences
+		for k := 0; k < 2000; k++ {
+			b = a
+			n := 2 + r.Intn(6)
+			for j := 0; j < n; j++ {
+				b[r.Intn(188)] ^= byte(1 + r.Intn(255))
+			}
+			if (a == b) != packet.Equal(&a, &b) {
+				c.Fail("equal:multi-byte-difference", "Equal disagrees with byte-wise comparison on a multi-byte difference", wit{Op: "Equal", Before: mon.Hex(a[:]), After: mon.Hex(b[:])})
+				break
+			}
+		}
+		c.Eval(2000)
 		c.Class(fmt.Sprintf("equal/body=%d", i%5))
 		// CopyPackets: fresh memory, same content
 		ps := []*packet.Packet{&a, &b}
